@@ -73,6 +73,22 @@ def move_vertex(c):
     e["post"]["verts"][0]["m"][0] += 1
 demo("Trace_API: move an old vertex by one unit", "Trace_API", case, move_vertex)
 
+# ---- Trace_API + LocateWalk mechanism
+evs = drive("queries", os.path.join(W, "q.ndjson"), part="0/10")
+def walked(e):
+    return e["ev"] == "Locate" and any(r["steps"] >= 2 and not r["scan"] for it in e["res"]["qs"] for r in it["rs"])
+case = first_accepted_case(evs, "Trace_API", walked)
+def one_more_step(c):
+    e = [x for x in c if walked(x)][0]
+    r = next(r for it in e["res"]["qs"] for r in it["rs"] if r["steps"] >= 2 and not r["scan"])
+    r["steps"] += 1
+demo("Trace_API+LocateWalk: one more walk step", "Trace_API", case, one_more_step)
+def other_start(c):
+    e = [x for x in c if walked(x)][0]
+    r = next(r for it in e["res"]["qs"] for r in it["rs"] if r["steps"] >= 2 and not r["scan"])
+    r["start"] = r["cell"] if r["cell"] else e["args"]["order"][-1]
+demo("Trace_API+LocateWalk: walk started elsewhere", "Trace_API", case, other_start)
+
 # ---- Trace_Pure
 evs = drive("predicates", os.path.join(W, "pred.ndjson"), part="0/20")
 pe = next(e for e in evs if e["ev"] == "Pred" and e["args"]["s"] == 0 and e["res"]["rows"][0]["fo"] != 0)
